@@ -22,9 +22,12 @@ MANIFEST = dict(
          "every allocator: saving writes a function of the abstract arena only — no address, capacity or history (save_address_free); no assert of "
          "yr_arena_save_stream fires and the arena after saving is the arena before (save_no_assert, save_restores); loading the image succeeds with the "
          "same abstract arena (load_save) and re-saving gives the same bytes (resave_identical); a fread-contract stream delivering any content in chunks of "
-         "arbitrary sizes is indistinguishable from the concatenation (load_chunked). The model is tied to arena.c by random op sequences and by running "
+         "arbitrary sizes is indistinguishable from the concatenation (load_chunked). load_save_run / load_save_reachable remove the WF assumption for "
+         "arenas built through the API: for every arena reachable from yr_arena_create (or from any WF arena) by an operation sequence inside the "
+         "protocol OpsOK (decidable; Thm/C19 run_refines), under every initial size, always-move setting and admissible realloc schedule, saving fires "
+         "no assert and load(save a) has the abstract content the address-free machine computed, under every loader configuration. The model is tied to arena.c by random op sequences and by running "
          "the Lean loader/saver on real compiled-rule images (accepted, re-saved byte-identically, same read requests as the C loader). That the compiler "
-         "registers every pointer it stores (WF for real rule sets) is sampled: generated rule sets over all constructs are saved, loaded and compared "
+         "registers every pointer it stores (i.e. that its op sequence is inside OpsOK) is sampled: generated rule sets over all constructs are saved, loaded and compared "
          "behaviourally (verdicts, match lists, tags, metas, externals) and byte-wise across two processes.",
     design_ref="DESIGN.md §5 C08, §4 D9",
     note=core.TB + "Rule constructs are sampled by a generator (every string kind, chained hex/regex strings, `matches` operands, text-string sets, loops, "
@@ -85,13 +88,13 @@ def run(tier, replay=None):
     ubs = set()
 
     if replay and replay.get("part") == "ops":
-        f, cov, u = ac.ops_tie(chk, b, 1, PID + "/ops", replay_case=replay["case"])
+        f, cov, u = ac.ops_tie(chk, b, 1, PID + "/ops", replay_case=replay["case"], replay_twin=replay.get("twin"))
         core.handle_broken_proof(chk, lres, f)
         return chk.finish("proof")
 
     # ---- (1) model <-> arena.c on operation sequences (with save / load / mutated loads)
     if lres.get("driver_ok") and not replay:
-        f, cov, u = ac.ops_tie(chk, b, 400 if tier == "quick" else 6000, PID + "/ops", loads="full")
+        f, cov, u = ac.ops_tie(chk, b, 400 if tier == "quick" else 6000, PID + "/ops", loads="full", twin=True)
         found |= f
         ubs |= u
         chk.cov.update(cov)
